@@ -343,3 +343,107 @@ def ord_eq_rule(rep, F):
             if extra:
                 rep.violation("ORD-EQ", "%s|%s|extra|%s" % (short, nm, ",".join(sorted(extra))), "%s: %s also reads %s, which equality ignores and which is not an audited encoding-detail field" % (short, nm, sorted(extra)), {})
     rep.floor("structs with hand-written Eq / Ord / Hash compared", 20, n)
+
+
+def ref_size_pass_rule(rep, F):
+    """the size of a reference script carried by a spent UTxO reaches the registration in every address arm"""
+    import fieldflow as ff
+    rep.rule("REF-size", "every arm of TxInputsBuilder::add_regular_input_extended registers the input through an `_extended` registration and hands it the reference-script size parameter unchanged (min_fee charges the tiered reference-script fee from it)")
+    fid = find_fn(rep, F, "TxInputsBuilder::add_regular_input_extended")
+    if not fid:
+        return
+    fn = F.fns[fid]
+    org = ff.Origins(F, fid)
+    n = 0
+    for c in F.calls(fid):
+        to = c.to or ""
+        short = to.rsplit("::", 1)[-1]
+        if "TxInputsBuilder::add_" not in to or "input" not in short:
+            continue
+        n += 1
+        rep.inst("REF-size")
+        t = fn["bbs"][c.bb]["t"]
+        if not short.endswith("_extended"):
+            rep.violation("REF-size", "add_regular_input_extended|%s" % short, "add_regular_input_extended registers an input through %s, which has no reference-script size: the script carried by such a UTxO is never charged (fee below the ledger minimum when ref_script_coins_per_byte is set)" % short, {"loc": facts.loc_str(t[0], fn)})
+            continue
+        o = org.of_operand(t[3][-1])
+        if "arg:5" not in o:
+            rep.violation("REF-size", "add_regular_input_extended|%s|size-arg" % short, "add_regular_input_extended calls %s with a reference-script size that is not its own parameter (origins %s)" % (short, sorted(o)[:4]), {})
+    rep.floor("input registrations in add_regular_input_extended", 4, n)
+
+
+
+def _const_operand_value(F, fn, op, defs):
+    """constant value of an operand through copies / static loads / widening casts; None if not constant"""
+    import re as _re
+    for _ in range(8):
+        if op[0] == "k":
+            sv = str(op[1])
+            if sv.startswith("static:"):
+                for k, v in F.consts.items():
+                    if k == sv[7:] or k.endswith("::" + sv[7:]):
+                        return int(v["val"])
+                return None
+            m = _re.match(r"^(-?\d+)_", sv)
+            return int(m.group(1)) if m else None
+        pl = op[1]
+        base = pl.split("|")[0]
+        ds = [d for d in defs.get(base, []) if d[0] == "stmt"]
+        if len(ds) != 1:
+            return None
+        rv = ds[0][1]
+        if rv[0] in ("use", "deref"):
+            op = rv[1] if rv[0] == "use" else ["c", rv[1]]
+            continue
+        if rv[0] == "cast" and rv[1] == "IntToInt":
+            op = rv[2]
+            continue
+        return None
+    return None
+
+
+def gate_limit(F, fid, site_bb):
+    """largest value of the compared quantity with which block `site_bb` can be reached, from the dominating comparisons `q <= C`,
+    `q < C`, `!(q > C)`, `!(q >= C)` against a constant. -> (limit or None, why)"""
+    from e1_panicpath import dominators
+    import mustpass as mp
+    fn = F.fns[fid]
+    defs = {}
+    for bj, bb in enumerate(fn["bbs"]):
+        for st in bb["st"]:
+            if st[1] == "=":
+                defs.setdefault(st[2].split("|")[0], []).append(("stmt", st[3], bj))
+        t = bb["t"]
+        if t[1] == "call":
+            defs.setdefault(t[4].split("|")[0], []).append(("call", t, bj))
+    best = None
+    best_q = set()
+    why = "no dominating comparison with a constant"
+    import fieldflow as _ff
+    org = _ff.Origins(F, fid)
+    for s in dominators(fn, site_bb):
+        t = fn["bbs"][s]["t"]
+        if t[1] != "switch":
+            continue
+        cp = t[2][1].split("|")[0]
+        ds = [d for d in defs.get(cp, []) if d[0] == "stmt" and d[1][0] == "bin"]
+        if len(ds) != 1:
+            continue
+        rv = ds[0][1]
+        op, lhs, rhs = rv[1], rv[2], rv[3]
+        cl, cr = _const_operand_value(F, fn, lhs, defs), _const_operand_value(F, fn, rhs, defs)
+        false_tgt = [tg for v, tg in t[3] if v == "0"]
+        on_false = bool(false_tgt) and mp.dominated_by(fn, site_bb, false_tgt[0]) and false_tgt[0] != t[4]
+        on_true = mp.dominated_by(fn, site_bb, t[4]) and not on_false
+        if cr is not None and cl is None:
+            lim = {"Le": cr, "Lt": cr - 1}.get(op) if on_true else {"Gt": cr, "Ge": cr - 1}.get(op) if on_false else None
+        elif cl is not None and cr is None:
+            lim = {"Ge": cl, "Gt": cl - 1}.get(op) if on_true else {"Lt": cl, "Le": cl - 1}.get(op) if on_false else None
+        else:
+            lim = None
+            if op in ("Le", "Lt", "Gt", "Ge"):
+                why = "the comparison %s is against a value that is not a compile-time constant" % op
+        if lim is not None and (best is None or lim < best):
+            best = lim
+            best_q = org.of_operand(lhs if cr is not None else rhs)
+    return best, why, best_q
